@@ -178,6 +178,9 @@ func (ex *Exec) loaded(v *Val) *Val {
 }
 
 func isRefType(t types.Type) bool {
+	if _, isTP := types.Unalias(t).(*types.TypeParam); isTP {
+		return false
+	}
 	switch u := t.Underlying().(type) {
 	case *types.Pointer, *types.Signature, *types.Chan:
 		return true
@@ -217,7 +220,7 @@ func (ex *Exec) heapWrite(st *State, tkey, ref, prefix string, sh *Shape, v *Val
 		if v.Sh != nil && !v.Sh.IsLeaf() {
 			s = ex.freshLeaf(sh, "mismatch")
 		}
-		st.heap[key] = ex.eng.smt.define("H_"+key, "(Array Int "+sh.Leaf+")", "(store "+arr+" "+ref+" "+s+")")
+		st.heap[key] = ex.def("H_"+key, "(Array Int "+sh.Leaf+")", "(store "+arr+" "+ref+" "+s+")")
 		ex.noteHeapWriteRef(key, ref)
 		return
 	}
@@ -532,7 +535,7 @@ func (ex *Exec) merge2(a, b *State) *State {
 	if cb == "false" {
 		return a
 	}
-	cond := ex.eng.smt.define("br", "Bool", ca)
+	cond := ex.def("br", "Bool", ca)
 	out := &State{pc: append([]string(nil), a.pc[:n]...), vars: map[types.Object]*Val{}, heap: map[string]string{}, defers: a.defers, epoch: a.epoch}
 	out.assume(or(cond, cb))
 	for k, va := range a.vars {
@@ -568,7 +571,7 @@ func (ex *Exec) merge2(a, b *State) *State {
 			if ha == hb {
 				out.heap[k] = ha
 			} else {
-				out.heap[k] = ex.eng.smt.define("Hm_"+k, srt, ite(cond, ha, hb))
+				out.heap[k] = ex.def("Hm_"+k, srt, ite(cond, ha, hb))
 			}
 		}
 	} else {
@@ -585,7 +588,7 @@ func (ex *Exec) merge2(a, b *State) *State {
 			if ha == hb {
 				out.heap[k] = ha
 			} else {
-				out.heap[k] = ex.eng.smt.define("Hm_"+k, srt, ite(cond, ha, hb))
+				out.heap[k] = ex.def("Hm_"+k, srt, ite(cond, ha, hb))
 			}
 		}
 	}
